@@ -1,6 +1,6 @@
 (* C17 -- decidable comparisons used by the correspondence evaluation (definitions only). *)
 From Coq Require Import ZArith List Bool.
-From TV Require Import Model.C17_Lifecycle.
+From TV Require Import Model.C17_Lifecycle Model.C17_Sessions.
 Import ListNotations.
 Open Scope Z_scope.
 
@@ -99,3 +99,18 @@ Fixpoint recv_unqueued (s : st) (evs : list event) : bool :=
 
 Definition chk_hs_wf (c : HsCase) : bool :=
   let '(s0, evs, _, _, _, _, _, _) := c in recv_unqueued s0 evs.
+
+(* several connections sharing a session object: (initial world, events, significant outcomes of
+   the connection events, closed flag of connection 1, its view of the session, connection 0's
+   view of the session, whether object 0 can still be resumed -- None: not observable) *)
+Definition WorldCase := (world * list wevent * list outcome * bool * option bool * option bool * option bool)%type.
+
+Definition wsig (o : wout) : list outcome :=
+  match o with WO x => if significant x then [x] else [] | _ => [] end.
+
+Definition chk_world (c : WorldCase) : bool :=
+  let '(w0, evs, want, cl1, v1, v0, lk) := c in
+  let '(w1, os) := wrun w0 evs in
+  list_eqb outcome_eqb (flat_map wsig os) want
+  && Bool.eqb (conn_closed w1 1) cl1 && optbool_eqb (conn_view w1 1) v1 && optbool_eqb (conn_view w1 0) v0
+  && match lk with None => true | Some b => Bool.eqb (flag w1 0) b end.
